@@ -159,6 +159,27 @@ theorem ctxExit_uses_src (m : Modes) (c : Ctx) :
       | .retainGrads => { m with retain := (retain_grads_exit m.retain c.prev).1 } := by
   unfold ctxExit; cases c.kind <;> rfl
 
+/-! ### the public surface Python's dispatch depends on
+
+`a += b` on a `Tensor` is `a = a.__add__(b)` (so the flag rule proved for the binary operator applies to the augmented statement)
+exactly because `Tensor` defines no in-place operator method; `Parameter(…)` is created by `Tensor.__init__` (so the creation rule
+— requested flag and grad mode, float guard — applies to parameters) exactly because `Parameter` is a subclass of `Tensor` alone that
+overrides neither construction nor the flag property.  Both facts are read from the class bodies on every run. -/
+def inplaceOperators : List String :=
+  ["__iadd__", "__isub__", "__imul__", "__itruediv__", "__ifloordiv__", "__imod__", "__ipow__", "__imatmul__",
+   "__iand__", "__ior__", "__ixor__", "__ilshift__", "__irshift__"]
+
+theorem tensor_defines_no_inplace_operator : ∀ m ∈ inplaceOperators, m ∉ tensorMethods := by decide
+
+/-- attribute hooks that would bypass the property setters of the flags -/
+theorem tensor_defines_no_attribute_hook :
+    "__setattr__" ∉ tensorMethods ∧ "__getattr__" ∉ tensorMethods ∧ "__getattribute__" ∉ tensorMethods ∧ "__new__" ∉ tensorMethods ∧
+    tensorBases = [] := by decide
+
+theorem parameter_is_created_by_tensor_init :
+    parameterBases = ["Tensor"] ∧ "__init__" ∉ parameterMethods ∧ "__new__" ∉ parameterMethods ∧ "requires_grad" ∉ parameterMethods ∧
+    "__setattr__" ∉ parameterMethods ∧ "is_leaf" ∉ parameterMethods ∧ "backward" ∉ parameterMethods := by decide
+
 /-! ### the statement skeletons of the two loops are the ones `stackStep` / `sweep` were written from -/
 theorem traversal_skeleton_is_modelled : traversalSkeleton = [
     "ordered_nodes = []",
